@@ -905,7 +905,7 @@ def class_spec(name, sch, defs, probe_disc):
             fails.append(("C09/compile/unexplained", "generated source does not compile: " + x[1]))
         return fails, "no-compile", code
     if x[0] == "exec":
-        if has_not_schema(inp) or any(has_not_schema(d) for d in inp_defs.values()):
+        if not_schema_symptom(x) and (has_not_schema(inp) or any(has_not_schema(d) for d in inp_defs.values())):
             fails.append(("C09/exec/not-schema", "a draft-4 'not' (schema valued) is generated as NotField(fields=<field>): "
                                                  "%s at exec: %s" % (x[1], x[2])))
         elif not explained:
@@ -987,6 +987,13 @@ def top_diff(want, got, out):
         return
     for n in props:
         diff_field(props[n], gp[n], "property", out)
+
+
+def not_schema_symptom(x):
+    """The exec failure of NotField(fields=<a field, not a list>) (the generator wraps the schema of a draft-4
+    'not' in a list since the repair: another exec failure of a schema that happens to hold a 'not' is judged
+    by the other clauses)."""
+    return x[1] == "TypeError" and "Expected a Field class or instance" in x[2]
 
 
 def has_not_schema(s):
